@@ -76,12 +76,13 @@ const SHIM_METHODS: [&str; 35] = [
 ];
 
 // path calls renamed to free shim functions
-const SHIM_PATHS: [(&str, &str); 12] = [
+const SHIM_PATHS: [(&str, &str); 13] = [
     ("metadata", "rws_metadata"),
     ("File::open", "rws_file_open"),
     ("IpAddr::from_str", "rws_ipaddr_from_str"),
     ("SocketAddr::new", "rws_socketaddr_new"),
     ("env::var", "rws_env_var"),
+    ("env::set_var", "rws_env_set_var"),
     ("env::current_dir", "rws_env_current_dir"),
     ("String::from_utf8", "rws_string_from_utf8"),
     ("String::from_utf8_lossy", "rws_string_from_utf8_lossy"),
@@ -433,7 +434,11 @@ impl Rw {
                     _ => return None,
                 }
             } else {
-                return None;
+                // |x| { let a = ..; ..; P }: the block is evaluated into a condition variable
+                match b.block.stmts.last() {
+                    Some(Stmt::Expr(_, None)) => {}
+                    _ => return None,
+                }
             }
         }
         self.visit_expr_mut(&mut body);
@@ -442,6 +447,7 @@ impl Rw {
         let v = format_ident!("__rws_fv{}", self.tmp_no);
         let i = format_ident!("__rws_fi{}", self.tmp_no);
         let r = format_ident!("__rws_fr{}", self.tmp_no);
+        let c = format_ident!("__rws_fc{}", self.tmp_no);
         let lm = self.loop_marker(k);
         let e = &it.receiver;
         self.log("R-FIND", m.method.span(), format!(".iter().find(closure) -> indexed loop #{}", k));
@@ -453,7 +459,8 @@ impl Rw {
                 while #i < #v.len() {
                     #lm
                     let #pat = &#v[#i];
-                    if #body {
+                    let #c: bool = #body;
+                    if #c {
                         #r = Some(#pat);
                         break;
                     }
@@ -463,6 +470,23 @@ impl Rw {
             }
         })
     }
+}
+
+// does the block `continue` its OWN loop (not one nested inside it, not inside a closure)?
+fn has_own_continue(b: &syn::Block) -> bool {
+    struct V { found: bool }
+    impl<'ast> syn::visit::Visit<'ast> for V {
+        fn visit_expr(&mut self, e: &'ast Expr) {
+            match e {
+                Expr::Continue(c) => { if c.label.is_none() { self.found = true; } }
+                Expr::ForLoop(_) | Expr::While(_) | Expr::Loop(_) | Expr::Closure(_) => {}
+                _ => syn::visit::visit_expr(self, e),
+            }
+        }
+    }
+    let mut v = V { found: false };
+    syn::visit::Visit::visit_block(&mut v, b);
+    v.found
 }
 
 fn collect_pat_idents(p: &syn::Pat, out: &mut Vec<String>) {
@@ -595,6 +619,10 @@ impl VisitMut for Rw {
                 if name == "clone" && m.args.is_empty() {
                     self.log("R-CLONE", m.method.span(), ".clone() -> .rws_clone()");
                     m.method = format_ident!("rws_clone", span = m.method.span());
+                } else if (name == "replace" || name == "contains" || name == "split_once") && m.args.len() >= 1
+                    && matches!(&m.args[0], Expr::Lit(syn::ExprLit { lit: syn::Lit::Char(_), .. })) {
+                    self.log("R-SHIM", m.method.span(), format!(".{}(char, ..) -> .rws_{}_char(..)", name, name));
+                    m.method = format_ident!("rws_{}_char", name, span = m.method.span());
                 } else if SHIM_METHODS.contains(&name.as_str()) {
                     self.log("R-SHIM", m.method.span(), format!(".{}() -> .rws_{}()", name, name));
                     m.method = format_ident!("rws_{}", name, span = m.method.span());
@@ -743,6 +771,31 @@ impl Rw {
                     }
                 }
             }
+        }
+        // R-FORCONT: Verus has no `continue` in for-loops. `for P in E { B }` whose body continues is iterated through a vector of
+        // the iterator's items in REVERSED order, popped from the back (same items, same order), in a `while` loop
+        if has_own_continue(&fl.body) {
+            let k = self.next_loop();
+            let mut e = (*fl.expr).clone();
+            self.visit_expr_mut(&mut e);
+            let mut body = fl.body.clone();
+            self.visit_block_mut(&mut body);
+            let q = format_ident!("__rws_q{}", k);
+            let lm = self.loop_marker(k);
+            let pat = &fl.pat;
+            let stmts = &body.stmts;
+            self.log("R-FORCONT", sp, format!("for-loop #{} with `continue` -> while loop popping the reversed item vector", k));
+            let blk: Stmt = parse_quote! {
+                {
+                    let mut #q = rws_iter_to_rev_vec(#e);
+                    while #q.len() > 0 {
+                        #lm
+                        let #pat = #q.pop().unwrap();
+                        #(#stmts)*
+                    }
+                }
+            };
+            return Some(vec![blk]);
         }
         // plain for: name the iterator expression so that a contract can attach a ghost iterator
         let k = self.next_loop();
